@@ -51,7 +51,7 @@ Definition preferred (e : env) (u : list fgclass) (rq : request) (c : fgclass) :
   In c u /\ admissible e rq c /\
   ~ exists c', In c' u /\ admissible e rq c' /\ proper_sub c' c /\ same_fws e rq c' c.
 
-(* ---- subclass preference as the property text reads literally (no framework condition) ---- *)
+(* ---- unconditional subclass preference (no framework condition), as the docstrings describe it ---- *)
 Definition preferred_literal (e : env) (u : list fgclass) (rq : request) (c : fgclass) : Prop :=
   In c u /\ admissible e rq c /\ ~ exists c', In c' u /\ admissible e rq c' /\ proper_sub c' c.
 (* the part of the input space on which the two readings can differ: an admissible proper subclass whose framework set
